@@ -111,7 +111,7 @@ Record prims (St : Type) := {
   p_ls : path -> M St (list path);
   p_find : path -> M St (list path);
   p_makedirs : path -> M St unit;
-  p_rm : path -> M St unit;
+  p_rm : path -> M St unit;                  (* rm(path, recursive=True) under `except FileNotFoundError: pass` *)
   p_write : path -> content -> M St unit;     (* open(path,'wb') ... close *)
   p_read : path -> M St content;              (* open(path,'rb') and parse *)
   p_read_opt : path -> M St (option content); (* the same under `except FileNotFoundError` *)
@@ -124,14 +124,12 @@ Arguments p_write {St}. Arguments p_read {St}. Arguments p_read_opt {St}. Argume
 Section Bodies.
 Context {St : Type} (P : prims St).
 
-(* rm_retry *)
+(* rm_retry: the removal is attempted whatever an existence check would say (a
+   FileNotFoundError of rm is swallowed: p_rm), then the path must be gone *)
 Definition body_rm (p : path) : M St unit :=
+  p_rm P p ;;;
   b <- p_exists P p ;;
-  if b then
-    p_rm P p ;;;
-    b2 <- p_exists P p ;;
-    if b2 then fail (* ValueError: deletion not yet complete *) else ret tt
-  else ret tt.
+  if b then fail (* ValueError: deletion not yet complete *) else ret tt.
 
 (* mkdirs_retry *)
 Definition body_mkdirs (p : path) : M St unit := p_makedirs P p.
@@ -182,7 +180,10 @@ Definition body_write_concatted (out : path) (cells : list cell) : M St unit :=
 (* move_retry *)
 Definition body_move (p1 p2 : path) : M St unit :=
   b <- p_exists P p1 ;;
-  if b then p_move P p1 p2 else ret tt.
+  if b then p_move P p1 p2
+  else
+    b2 <- p_exists P p2 ;;
+    if b2 then ret tt else fail (* ValueError: neither source nor target found *).
 
 (* write_metadata_file *)
 Definition body_write_metadata (ds : path) (parts : list (list cell)) : M St unit :=
@@ -319,7 +320,7 @@ Definition pure_prims : prims fs := {|
   p_ls := fun p => lift_o (fun f => ls f p);
   p_find := fun p => lift_q (fun f => find f p);
   p_makedirs := fun p => lift_m (fun f => makedirs f p);
-  p_rm := fun p => lift_m (fun f => rm f p);
+  p_rm := fun p => lift_m (fun f => if exists_b f p then rm f p else Some f);
   p_write := fun p c => lift_m (fun f => write f p c);
   p_read := fun p => lift_o (fun f => read f p);
   p_read_opt := fun p => lift_q (fun f => read f p);
